@@ -541,6 +541,28 @@ def run_rename_fault(chk, spec):
 					chk.fail("after a failed rename_columns every column is reachable under its (unchanged) name", f"rename/not-atomic/accessor/{fault}", f"{spec!r}: t[{nm!r}] -> {g!r}")
 					return
 
+def run_shared_refusal(chk, spec):
+	"""two live vectors over ONE caller-supplied tuple: a write to either is refused (AliasError) - and a refused write is a failed assignment like any
+	other: contents, dtype (nullable flag included), name and fingerprint of the vector are exactly what they were"""
+	tup = tuple(spec["values"])
+	a, b = Vector(tup, name="a"), Vector(tup, name="b")
+	if spec.get("cached"):
+		call(a.fingerprint)
+	before_a, before_b = snapshot(a), snapshot(b)
+	fa = call(a.fingerprint).value
+	key = build_key(spec["key"])
+	o = call(a.__setitem__, key, spec["value"])
+	chk.judged("assign-fault", ("shared-refusal", spec["key"][0], spec["what"], len(tup)))
+	if snapshot(b) != before_b:
+		chk.fail("the other vector over the same tuple never sees the write", f"assign/shared-tuple/other-changed/{spec['what']}", f"{spec!r}: b {short(before_b, 120)} -> {short(snapshot(b), 120)}", prop="C15")
+		return
+	if o.ok:
+		return        # carried out (the storage was no longer shared by the time of the write): contents are judged by the ordinary cases
+	after = snapshot(a)
+	if after != before_a or call(a.fingerprint).value != fa:
+		field = "contents" if after[0] != before_a[0] else ("dtype" if after[1] != before_a[1] else "name-or-fingerprint")
+		chk.fail("an assignment that fails for any reason leaves the vector exactly as it was", f"assign/not-atomic/refused-shared-storage/{spec['what']}/{field}-changed", f"{spec!r}: raised {o!r}; before {short(before_a, 160)} after {short(after, 160)}")
+
 
 def run_sequence(chk, spec):
 	"""several VALID writes in a row on one table (cell / row / column / region from another table / whole-slice from a vector) and on the tables
@@ -829,7 +851,7 @@ def run_mask_reuse(chk, spec):
 			return
 
 
-RUNNERS = {"cross_kind_equal": run_cross_kind_equal, "mask_reuse": run_mask_reuse, "own_source": run_own_source, "badmask": run_badmask, "selfmask": run_selfmask, "sequence": run_sequence, "overflow": run_overflow, "assign": run_assign, "iterfault": run_iterfault, "table_assign": run_table_assign, "rename": run_rename, "rename_fault": run_rename_fault}
+RUNNERS = {"cross_kind_equal": run_cross_kind_equal, "mask_reuse": run_mask_reuse, "own_source": run_own_source, "badmask": run_badmask, "selfmask": run_selfmask, "sequence": run_sequence, "overflow": run_overflow, "assign": run_assign, "iterfault": run_iterfault, "table_assign": run_table_assign, "rename": run_rename, "rename_fault": run_rename_fault, "shared_refusal": run_shared_refusal}
 
 COLKINDS = ["bool", "int", "float", "complex", "str", "date", "datetime", "object", "bytes"]
 
@@ -971,6 +993,22 @@ def run(chk):
 			continue
 		for keyspec in (("int", 0), ("slice", (0, 1, None)), ("idx-list", [0]), ("mask-list", [True] + [False] * (len(vals) - 1))):
 			chk.case("assign", {"values": vals, "key": keyspec, "vform": "scalar" if keyspec[0] in ("int", "mask-list") else "list", "value": wide if keyspec[0] in ("int", "mask-list") else [wide]}, "assign-promote-mixed")
+	# an index list / tuple whose LATER element is not an int (the first one is fine), with a value that would promote the column or make it nullable
+	for vals, wide in (([1, 2, 3], 2.5), ([1.5, 2.5, 3.5], 1j), ([date(2020, 1, 1), date(2020, 1, 2), date(2020, 1, 3)], datetime(2020, 1, 1, 5)), (["p", "q", "r"], None)):
+		for badkey in (("idx-list", [0, 1.5]), ("idx-tuple", (1, 2.0)), ("idx-list", [0, None]), ("idx-list", [0, "1"]), ("idx-list", [2, 1, 0.0]), ("idx-tuple", (0, 1j))):
+			for value, vform in ((None, "scalar"), (wide, "scalar"), ([wide] * len(badkey[1]), "list"), ([None] * len(badkey[1]), "list"), ([vals[0]] * len(badkey[1]), "list")):
+				if value is None and wide is None and vform == "scalar" and False:
+					continue
+				chk.case("assign", {"values": vals, "key": badkey, "vform": vform, "value": value}, "assign-bad-index-element")
+	# two vectors over one tuple: the refused write changes nothing
+	for vals, wide in (([1, 2, 3], 2.5), ([1.5, 2.5], 1j), ([date(2020, 1, 1), date(2020, 1, 2)], datetime(2020, 1, 1, 5)), (["p", "q"], None), ([True, False], None)):
+		for keyspec in (("int", 0), ("slice", (0, 1, None)), ("idx-list", [0]), ("mask-list", [True] + [False] * (len(vals) - 1))):
+			for what, x in (("none", None), ("wider", wide), ("same-kind", vals[-1]), ("unrelated", object())):
+				if x is None and what == "wider":
+					continue
+				value = x if keyspec[0] in ("int", "mask-list") else [x]
+				for cached in (False, True):
+					chk.case("shared_refusal", {"values": vals, "key": keyspec, "value": value, "what": what, "cached": cached}, "assign-shared-refusal")
 	# duplicates made with the copy module are ordinary vectors
 	for dup in ("copy", "deepcopy"):
 		for vals in ([1, 2, 3], ["p", "q"], [1.5, None]):
